@@ -42,12 +42,53 @@ def ser(v, d=0):
     return "<%s>" % type(v).__name__
 
 
-def outcome(fn, args_src, env):
+def outcome(fn, args_src, env, own_name=None):
     try:
         a, k = eval("(lambda *a, **k: (a, k))(%s)" % args_src, dict(env))
         return ["ok", ser(fn(*a, **k))]
     except BaseException as e:
-        return ["exc", type(e).__name__, [ser(x) for x in e.args]]
+        out = ["exc", type(e).__name__, [ser(x) for x in e.args]]
+        if own_name is not None:
+            # where the traceback says the exception came from: the text of the innermost line in the module file (the twins differ in their name only)
+            import linecache
+            tb, where = e.__traceback__, None
+            while tb is not None:
+                if os.path.basename(tb.tb_frame.f_code.co_filename).startswith("c19mod_"):
+                    where = linecache.getline(tb.tb_frame.f_code.co_filename, tb.tb_lineno).strip().replace(own_name + "__plain", own_name)
+                tb = tb.tb_next
+            out.append(where)
+        return out
+
+
+_IN_PLACE = {}
+
+
+def node_in_place(node, src):
+    if node is None:
+        return False
+    key = (id(node), id(src))
+    if key not in _IN_PLACE:
+        _IN_PLACE[key] = (_node_in_place(node, src), node)        # the node is kept alive: ids are not reused
+    return _IN_PLACE[key][0]
+
+
+def _node_in_place(node, src):
+    """the node carries the position it has in the file: the text there parses to a node of the same type"""
+    if not hasattr(node, "lineno"):
+        return True
+    seg = ast.get_source_segment(src, node)
+    if seg is None:
+        return False
+    try:
+        if isinstance(node, ast.stmt):
+            got = ast.parse("if 1:\n" + " " * node.col_offset + seg).body[0].body[0] if node.col_offset else ast.parse(seg).body[0]
+        elif isinstance(node, ast.expr):
+            got = ast.parse("(" + seg + ")", mode="eval").body
+        else:
+            return True
+    except SyntaxError:
+        return False
+    return type(got) is type(node)
 
 
 def reset(mod):
@@ -75,10 +116,13 @@ def run_case(c, ci, root):
 
             def handler(self, ret, node, frame, evt, *a, ti=ti, **kw):
                 desc = None if node is None else [type(node).__name__, getattr(node, "lineno", None), getattr(node, "col_offset", None)]
-                log.append([ti, evt.value, desc, os.path.basename(frame.f_code.co_filename), active["on"]])
+                log.append([ti, evt.value, desc, os.path.basename(frame.f_code.co_filename), active["on"],
+                            frame.f_code.co_filename.startswith("<") or node_in_place(node, c["module_src"])])
             handler.__name__ = "h"
             attrs = {"h": pyc.register_handler(evs)(handler), "global_guards_enabled": ts.get("guards", True),
                      "should_instrument_file": lambda self, fn, root=root: fn.startswith(root) or fn.startswith("<sandbox")}
+            if ts.get("sys"):
+                attrs["hs"] = pyc.register_raw_handler(pyc.TraceEvent(ts["sys"]))(lambda self, *a, **k: None)
             tracers.append(type("DT%d_%d" % (ci, ti), (pyc.BaseTracer,), attrs).instance())
         support = types.ModuleType("c19_support")
         support.DECO = pyc.instrumented(tracers) if c["style"] == "pyc" else tracers[0]
@@ -115,18 +159,20 @@ def run_case(c, ci, root):
             n0 = len(log)
             reset(mod)
             active["on"] = True
-            got = outcome(dec, args, vars(mod))
+            got = outcome(dec, args, vars(mod), name)
             active["on"] = False
             after = snapshot(tracers)
             rec_dec = list(mod._rec)
             reset(mod)
-            want = outcome(plain, args, vars(mod))
+            want = outcome(plain, args, vars(mod), name)
             if rec_dec != list(mod._rec):
                 want = want + ["side effects differ"]
             reset(mod)
             # reference: the same function text instrumented on its own through exec, called inside an explicit context
             ref_log = []
-            src = textwrap.dedent(inspect.getsource(plain)).replace("%s__plain" % name, name)
+            src = inspect.getsource(plain).replace("%s__plain" % name, name)
+            if src[:1] == " ":
+                src = "if 1:\n" + src             # not dedent: that would change multi-line string literals
             n1 = len(log)
             try:
                 from contextlib import ExitStack
@@ -145,7 +191,8 @@ def run_case(c, ci, root):
             del log[n1:]
             evs = [[e[0], e[1], None if e[2] is None else e[2][0]] for e in log[n0:n1]]
             r["calls"].append({"args": args, "reference_outcome": locals().get("ref_outcome"), "decorated": got, "plain": want, "before": before, "after": after, "events": evs, "reference": ref_log,
-                               "invalid_nodes": sum(1 for e in log[n0:n1] if e[2] is None)})
+                               "invalid_nodes": sum(1 for e in log[n0:n1] if e[2] is None),
+                               "misplaced_nodes": sum(1 for e in log[n0:n1] if e[2] is not None and not e[5])})
         res["outside_events"] = sum(1 for e in log if not e[4]) - res["events_at_import"]
     finally:
         for t in tracers:
@@ -163,6 +210,7 @@ def main():
     out = []
     try:
         for i, c in enumerate(cases):
+            _IN_PLACE.clear()
             try:
                 out.append(run_case(c, i, root))
             except BaseException as e:
